@@ -75,7 +75,7 @@ Section Root3.
     apply andb_true_iff in Hok. destruct Hok as [Hok HFs].
     apply andb_true_iff in Hok. destruct Hok as [Hok Hnr].
     apply andb_true_iff in Hok. destruct Hok as [Hwfs Hk].
-    pose proof Hc as Hc'. unfold univ3_contract_b in Hc'. apply andb_true_iff in Hc'. destruct Hc' as [Hcu _].
+    pose proof Hc as Hcu. unfold univ3_contract_b in Hcu.
     destruct (find_entity_In _ _ _ _ HeQ) as [HeU HeT].
     rewrite forallb_forall in HFs.
     assert (Hst : forall d, In d ds -> item_static_b sc subs [] vdsM supM kq decls rdecls k Q (r3_item d) = true).
@@ -154,17 +154,20 @@ Section Root3.
     { apply Forall_forall. intros d Hd Hn.
       pose proof (HFs d Hd) as Hs. unfold rfield3_static_b in Hs.
       apply andb_true_iff in Hs. destruct Hs as [Hs Hit].
-      apply andb_true_iff in Hs. destruct Hs as [Hs Hreq].
-      apply andb_true_iff in Hs. destruct Hs as [Hs Hne].
-      apply andb_true_iff in Hs. destruct Hs as [_ Hr0]. apply Nat.ltb_lt in Hr0.
-      assert (Hwf0 : config_wf_b sc (sub_at sc subs (r3_root d)) = true)
-        by (rewrite forallb_forall in Hwfs; apply Hwfs; unfold sub_at; apply nth_In; exact Hr0).
-      assert (Hu0 : univ_ok_b (sub_at sc subs (r3_root d)) U = true)
-        by (apply (univ_contract_sub sc decls rdecls subs U _ Hcu); unfold sub_at; apply nth_In; exact Hr0).
+      apply andb_true_iff in Hs. destruct Hs as [Hcase Hne].
       assert (Ha : a_of3 d = mex U sc vdsM supM F Q eQ [item_proj (r3_item d)] []).
       { unfold a_of3, guard, mex. rewrite (proj1 (Hgp d Hd)).
         rewrite (exec_sels_sub_mono (sub_at sc subs (r3_root d)) U [] vars F Q eQ _ [] eq_refl Hne).
-        apply (req_ok_sound_same_vars sc (sub_at sc subs (r3_root d)) U [] vars kq Q eQ None _ [] Hwf0 Hu0 Hreq HeU HeT F). }
+        destruct (is_typename_leaf (r3_item d)).
+        - (* resolved by the gateway itself: the supergraph's own answer *)
+          apply Nat.eqb_eq in Hcase. rewrite Hcase. unfold sub_at. rewrite nth_overflow by apply Nat.le_refl. reflexivity.
+        - apply andb_true_iff in Hcase. destruct Hcase as [Hs Hreq].
+          apply andb_true_iff in Hs. destruct Hs as [_ Hr0]. apply Nat.ltb_lt in Hr0.
+          assert (Hwf0 : config_wf_b sc (sub_at sc subs (r3_root d)) = true)
+            by (rewrite forallb_forall in Hwfs; apply Hwfs; unfold sub_at; apply nth_In; exact Hr0).
+          assert (Hu0 : univ_ok_b (sub_at sc subs (r3_root d)) U = true)
+            by (apply (univ_contract_sub sc decls rdecls subs U _ Hcu); unfold sub_at; apply nth_In; exact Hr0).
+          apply (req_ok_sound_same_vars sc (sub_at sc subs (r3_root d)) U [] vars kq Q eQ None _ [] Hwf0 Hu0 Hreq HeU HeT F). }
       assert (Hm : m_of3 d = mex U sc vdsM supM F Q eQ [item_client (r3_item d)] []).
       { unfold m_of3, guard. rewrite (proj2 (Hgp d Hd)). reflexivity. }
       rewrite Ha, Hm. unfold tr_of3.
